@@ -1,6 +1,8 @@
 """C07 - TFTP option negotiation follows RFC 2347-2349; the transfer honours the OACK."""
 import itertools
+import os
 import re
+import tempfile
 
 import common
 from common import Check, sx
@@ -33,6 +35,10 @@ def timeout_grid(max_tmo):
 TSIZE_GRID = ["0", "1", "00", "", "-0", "+0", " 0", "0 ", "512", "0\n", "O"]
 
 KINDS = [("bytesio", 0), ("bytesio", 3), ("file", 0), ("file", 4), ("pipe",), ("noreg",)]
+# ("fileread", k): a real buffered file (open(path, "rb")) whose first k bytes the handler has READ (not seek()ed)
+# before returning it: the logical position is k while the descriptor offset is at the end of the read-ahead
+# buffer.  Model: KRealFile (k + len(content)) k true, as for ("file", k).
+READ_KINDS = [("fileread", 1), ("fileread", 3)]
 
 
 def predict(c):
@@ -51,7 +57,7 @@ def predict(c):
     if v is not None and dec.match(v) and 1 <= int(v) <= c["max_tmo"]:
         tmo = int(v)
         n += 1
-    if o.get("tsize") == "0" and not c["netascii"] and c["kind"][0] in ("bytesio", "file"):
+    if o.get("tsize") == "0" and not c["netascii"] and c["kind"][0] in ("bytesio", "file", "fileread"):
         n += 1
     return bs, tmo, n > 0
 
@@ -86,6 +92,18 @@ def with_script(c, style, rng):
         for w in wants:
             t += tmo * T.TICKS - 1
             ev.append((t, 0, T.ack(w)))
+    elif style == "dup":        # a duplicate of the previous ACK arrives at mid-interval, the matching ACK a little later
+        ev, t, prev = [], 0, None
+        for w in wants:
+            if prev is not None:
+                t += (tmo * T.TICKS) // 2
+                ev.append((t, 0, T.ack(prev)))
+                ev.append((t + 1, 0, T.ack(prev)))
+                t += 3
+            else:
+                t += 1
+            ev.append((t, 0, T.ack(w)))
+            prev = w
     elif style == "lossy":
         ev = T.coop_script(rng, wants, tmo * T.TICKS, c["retries"], fault_rate=0.6)
     else:
@@ -106,6 +124,35 @@ def canon_oack(trace):
     return out
 
 
+def run_impl_fileread(c):
+    """own handler (tftp_common is not changed): real buffered file advanced by read(k)"""
+    k = c["kind"][1]
+    released = []
+    paths = []
+
+    def handler(filename, client, server, context):
+        fd, path = tempfile.mkstemp(prefix="vf_tsize_rd_")
+        os.write(fd, b"P" * k + c["content"])
+        os.close(fd)
+        paths.append(path)
+        f = open(path, "rb")
+        assert f.read(k) == b"P" * k
+        return T._LoggedFile(f, released)
+    try:
+        tr = T.run_impl(c, handler=handler)
+    finally:
+        for p in paths:
+            try:
+                os.remove(p)
+            except OSError:
+                pass
+    if released:
+        # the real code releases the file directly before the socket (nested with-blocks)
+        i = max((j for j, e in enumerate(tr) if e == [6]), default=len(tr))
+        tr = tr[:i] + [[5]] + tr[i:]
+    return tr
+
+
 class C07(C01):
     ident = "C07"
     technique = ("Coq proof: negotiate = declarative RFC 2347-2349 specification (blksize/timeout/tsize rules, "
@@ -114,7 +161,7 @@ class C07(C01):
     rule = ("case = (ordered option list with names in lower/UPPER/MiXeD case incl. duplicates differing in case, values from "
             "the boundary grid 0,1,7,8,9,511,512,513,max-1,max,max+1,65464,65465,65535,65536 + non-decimal/signed/padded/empty/"
             "huge, server limits max_block_size {8,512,1024,65464} x max_timeout {1,5,30,255} x default_timeout {1,2,5}, stream "
-            "kind bytesio@0/@3, file@0/@4, pipe, no-fileno, mode octet/netascii, client script coop/silent/skip-ACK0/late/lossy); "
+            "kind bytesio@0/@3, file@0/@4 (seek), buffered file advanced by read(1|3) below/above the 8 KiB read-ahead, pipe, no-fileno, mode octet/netascii, client script coop/silent/skip-ACK0/late/lossy/duplicate-ACK at mid-interval); "
             "exhaustive: every single option x value grid x limits (x kinds x modes for tsize), all 65 ordered selections of "
             "{blksize,timeout,tsize,unknown} x 3 letter cases x accept/reject values; random mixes; non-trivial = request has "
             ">= 1 option; distinct by (options, limits, kind, mode, script)")
@@ -201,6 +248,25 @@ class C07(C01):
                 for (n1, n2) in itertools.permutations(styles(nm), 2):
                     c = self.base([(n1, a), (n2, b)], max_bs=rng.choice([512, 1024]), kind=("bytesio", 2))
                     yield self.finish(c, rng, "coop")
+        # (g) handler has read part of a real file: below and above the 8 KiB read-ahead buffer
+        for kind in READ_KINDS:
+            for n in (0, 5, 600, 8191, 8192, 9000):
+                for opts in ([("tsize", "0")], [("TSIZE", "0"), ("blksize", "4096")]):
+                    for na in (False, True):
+                        if na and n > 600:
+                            continue
+                        c = self.base(opts, kind=kind, netascii=na)
+                        c = dict(c, content=bytes((i * 5 + 2) % 251 for i in range(n)))
+                        yield with_script(c, "coop", rng)
+        # (h) duplicate / stale ACKs at mid-interval with a negotiated time-out different from the default
+        for (tmo, dflt) in ((1, 2), (3, 1), (2, 5), (None, 2)):
+            for extra in ([], [("blksize", "8")], [("tsize", "0")]):
+                for retries in (1, 2):
+                    opts = ([("timeout", str(tmo))] if tmo else []) + extra
+                    if not opts:
+                        continue
+                    c = self.base(opts, max_tmo=5, default_tmo=dflt, retries=retries, kind=("bytesio", 0))
+                    yield self.finish(c, rng, "dup")
         # (f) random mixtures
         for _ in range(6000 if quick else 60000):
             max_bs = rng.choice([8, 512, 1024, 1428, 65464])
@@ -220,12 +286,19 @@ class C07(C01):
                 else:
                     v = rng.choice(["", "0", "8", "x"])
                 opts.append((nm, v))
-            c = self.base(opts, max_bs=max_bs, max_tmo=max_tmo, default_tmo=dflt, kind=rng.choice(KINDS),
+            c = self.base(opts, max_bs=max_bs, max_tmo=max_tmo, default_tmo=dflt, kind=rng.choice(KINDS + READ_KINDS),
                           netascii=rng.random() < 0.25, retries=rng.choice([0, 1, 2, 3]), wrap=rng.choice([0, 1, None]))
-            yield self.finish(c, rng, rng.choice(["coop", "coop", "coop0", "silent", "skip0", "late", "lossy"]))
+            yield self.finish(c, rng, rng.choice(["coop", "coop", "coop0", "silent", "skip0", "late", "lossy", "dup"]))
 
     def impl(self, c):
+        if c["kind"][0] == "fileread":
+            return canon_oack(run_impl_fileread(c))
         return canon_oack(T.run_impl(c))
+
+    def line(self, c, obs):
+        if c["kind"][0] == "fileread":
+            c = dict(c, kind=("file", c["kind"][1]))
+        return sx([T.case_sx(c), obs])
 
     def nontrivial(self, c, obs):
         if c["options"]:
